@@ -1,4 +1,6 @@
 SPECIFICATION TraceSpec
-CONSTANT LowerBound = TRUE
+CONSTANTS
+  LowerBound = TRUE
+  Remember = FALSE
 INVARIANT TraceInv
 CHECK_DEADLOCK FALSE
